@@ -13,6 +13,7 @@ PART_DESC = {
     "Wbp": "back-pressure scenario: a member stops reading while others pipeline requests / leave / move",
     "R": "real threads (-race binary), sampled interleavings",
     "binary": "the real executable with a fake discovery service and credit service",
+    "binidle": "the real executable with a short HAGALL_CLIENT_IDLE_TIMEOUT: silent clients are dropped, talking ones are not",
     "fuzz": "native Go fuzz target (quick: corpus replay, thorough: coverage-guided)",
     "idsR": "real threads on the exported id sources with an atomic ownership table",
     "ids": "complete enumeration of id-source sequences",
